@@ -296,9 +296,22 @@ package server
 //@ property C04 C05
 //@ requires stream != nil && loader != nil && fc.log != nil
 //@ loop 0 invariant old(fc.term) != -1 ==> fc.term == old(fc.term)
-//@ loop 0 modifies fc.term, fc.closeStreamWg, fresh
+//@ loop 0 modifies fc.term, fc.closeStreamWg, ghost(chunks, stream), ghost(lastChunkTerm, stream), fresh
 //@ ensures old(fc.term) != -1 ==> fc.term == old(fc.term)
-//@ modifies fc.term, fc.closeStreamWg
+//@ modifies fc.term, fc.closeStreamWg, ghost(chunks, stream), ghost(lastChunkTerm, stream)
+
+// Installing a snapshot wipes the node's log and database. That happens only after a
+// chunk of the snapshot has been received and found to carry the node's own term (or the
+// node has no term): a late snapshot stream of a superseded leader is refused BEFORE
+// anything is cleared — it cannot destroy entries the node acknowledged to a newer leader,
+// nor its durable term.
+//
+//@ func followerController.handleSnapshot(fc, stream)
+//@ property C03 C04 C05
+//@ holdslock
+//@ requires fc.wal != nil && stream != nil && fc.kvFactory != nil && fc.log != nil && walInv(as(fc.wal, *wal.wal)) && as(fc.wal, *wal.wal).segmentSize <= 2147483647
+//@ assert at call Clear#0: old(fc.term) == -1 || (ghost(chunks, stream) > old(ghost(chunks, stream)) && ghost(lastChunkTerm, stream) == old(fc.term))
+//@ modifies *
 
 // ---------------------------------------------------------------- leader controller (C04)
 
